@@ -32,7 +32,7 @@ CONSTANTS MaxLen = {maxlen}
 {extra}
 CHECK_DEADLOCK FALSE
 """
-INVS = ["InvServe", "InvBound", "InvAccounting", "InvGetTotal"]
+INVS = ["InvServe", "InvBound", "InvAccounting", "InvGetTotal", "InvAbsInd"]
 ENGINE = Engine("OutBuf", "OutBuf_Trace", "outbuf_run", MC_TMPL, INVS, clause_property, "outbuf-trace")
 
 
@@ -72,10 +72,45 @@ def run_engine(pid, tier, ev, violations, machinery):
     ENGINE.run(pid, tier, PLAN[pid], ev, violations, machinery)
 
 
+def apalache_inductive(ev, violations, machinery, pid):
+    """Unbounded-time argument (thorough tier): the invariant InvAbsInd that TLC checks on the concrete
+    model is inductive on the set-based abstraction spec/apalache/OutBufInd.tla for arbitrary integer
+    times (Apalache), and implies that nothing an end point may still request was dropped."""
+    import os
+    import shutil
+    import subprocess
+    import tempfile
+    from .common import SPEC
+    from .evidence import save_replay
+    steps = [("Init", "IndInv", 0), ("IndInit", "IndInv", 1), ("IndInit", "Needed", 0)]
+    out = tempfile.mkdtemp(prefix="fv-apa-")
+    try:
+        for init, inv, length in steps:
+            try:
+                p = subprocess.run(["apalache-mc", "check", f"--init={init}", f"--inv={inv}", f"--length={length}",
+                                    f"--out-dir={out}", "OutBufInd.tla"], cwd=os.path.join(SPEC, "apalache"),
+                                   stdout=subprocess.PIPE, stderr=subprocess.STDOUT, text=True, timeout=1800, check=False)
+            except (OSError, subprocess.TimeoutExpired) as e:
+                machinery.append(f"apalache {init}/{inv}: {e}")
+                continue
+            ok = "The outcome is: NoError" in p.stdout
+            ev.cov["runs"].append({"kind": "apalache-inductive-step", "module": "apalache/OutBufInd", "init": init,
+                                   "inv": inv, "length": length, "ok": ok})
+            if "The outcome is: Error" in p.stdout:
+                path = save_replay(pid, {"kind": "apalache-counterexample", "init": init, "inv": inv, "output": p.stdout[-4000:]})
+                violations.append((pid, f"design-level: {inv} not inductive from {init} (Apalache)", path))
+            elif not ok:
+                machinery.append(f"apalache {init}/{inv} gave no verdict: {p.stdout[-300:]}")
+    finally:
+        shutil.rmtree(out, ignore_errors=True)
+
+
 def check(pid, tier):
     ev = Evidence(pid, tier)
     out_lines, violations, machinery = [], [], []
     run_engine(pid, tier, ev, violations, machinery)
+    if pid == "C09" and tier == "thorough":
+        apalache_inductive(ev, violations, machinery, pid)
     return finish(pid, ev, out_lines, violations, machinery)
 
 
